@@ -42,6 +42,7 @@ type PropCfg struct {
 	Assumptions []string   `json:"assumptions"`
 	Outside     []string   `json:"outside"`
 	ExtraNoop   []string   `json:"extra_noop"`
+	Redirect    map[string]string `json:"redirect"` // callee (fn.String()) -> harness function serving the call
 	ClassActs   []string   `json:"class_actions"` // action kinds that distinguish finding classes (default: all)
 	SolverMode  string     `json:"solver_mode"` // "fresh": non-incremental queries (arithmetic kernels)
 }
@@ -217,6 +218,7 @@ func checkMain(args []string) int {
 		e := newEngine(prog, pkg, []string{"z3", "-in"})
 		e.stopOnViol = 5000
 		e.extraNoop = pc.ExtraNoop
+		e.redirect = pc.Redirect
 		e.solverFresh = pc.SolverMode == "fresh" || pc.SolverMode == "int-fresh"
 		e.solverInt = pc.SolverMode == "int" || pc.SolverMode == "int-fresh"
 		params := ec.Quick
